@@ -863,23 +863,24 @@ async fn server_event_patch_case(case: &Value) -> Value {
         let _ = std::fs::remove_dir_all(&dir);
         return json!({"outcome": "setup_failed", "error": e.to_string()});
     }
+    let identity = case["identity"].as_bool() == Some(true);
     let init: Vec<EventRecord> = case["log"].as_array().unwrap().iter().map(fs_record_of).collect();
     {
-        let log = storage.folder_log(&id).await.unwrap();
+        let log = if identity { storage.identity_log().await.unwrap() } else { storage.folder_log(&id).await.unwrap() };
         let mut log = log.write().await;
         if !init.is_empty() {
             log.apply_records(init).await.unwrap();
         }
     }
-    let path = storage.paths().event_log_path(&id);
+    let path = if identity { storage.paths().identity_events() } else { storage.paths().event_log_path(&id) };
     let file_before = std::fs::read(&path).unwrap_or_default();
     let before = {
-        let log = storage.folder_log(&id).await.unwrap();
+        let log = if identity { storage.identity_log().await.unwrap() } else { storage.folder_log(&id).await.unwrap() };
         let log = log.read().await;
         leaves_hex(log.tree())
     };
     let mut other = sos_core::commit::CommitTree::new();
-    let mut l: Vec<[u8; 32]> = vec![prefix_leaf];
+    let mut l: Vec<[u8; 32]> = if identity { vec![] } else { vec![prefix_leaf] };
     l.extend(case["proof_of"].as_array().unwrap().iter().map(|b| commit_of_byte(b.as_u64().unwrap()).0));
     other.append(&mut l);
     other.commit();
@@ -905,6 +906,14 @@ async fn server_event_patch_case(case: &Value) -> Value {
             Ok(_) => "ok".to_string(),
             Err(e) => format!("err: {}", e),
         }
+    } else if identity {
+        use sos_sync::Merge;
+        let diff = sos_core::events::patch::FolderDiff { last_commit: None, patch: Patch::new(req.patch), checkpoint: req.proof };
+        let mut outcome = sos_sync::MergeOutcome::default();
+        match storage.merge_identity(diff, &mut outcome).await {
+            Ok(cp) => name_of(&cp),
+            Err(e) => format!("err: {}", e),
+        }
     } else if case["direct"].as_bool() == Some(true) {
         use sos_sync::Merge;
         let diff = sos_core::events::patch::FolderDiff { last_commit: None, patch: Patch::new(req.patch), checkpoint: req.proof };
@@ -920,7 +929,7 @@ async fn server_event_patch_case(case: &Value) -> Value {
         }
     };
     let memory = {
-        let log = storage.folder_log(&id).await.unwrap();
+        let log = if identity { storage.identity_log().await.unwrap() } else { storage.folder_log(&id).await.unwrap() };
         let log = log.read().await;
         leaves_hex(log.tree())
     };
